@@ -5,6 +5,7 @@ import Mathlib.Tactic.FieldSimp
 import Mathlib.Tactic.Linarith
 import Mathlib.LinearAlgebra.Matrix.NonsingularInverse
 import Mathlib.LinearAlgebra.Matrix.Trace
+import Mathlib.LinearAlgebra.Matrix.Determinant.Basic
 import Mathlib.Analysis.Normed.Algebra.MatrixExponential
 import Mathlib.Analysis.SpecialFunctions.Exponential
 /-!
@@ -257,5 +258,201 @@ theorem conj_exp (hVW : V * W = 1) :
   rw [this]
 
 end Algebra
+
+/-! ### trace and determinant of the assembled block-diagonal matrix -/
+
+/-- Laplace expansion along a last row that vanishes off the diagonal -/
+theorem det_last_row {n : Nat} (M : Matrix (Fin (n + 1)) (Fin (n + 1)) ℝ)
+    (h : ∀ j : Fin n, M (Fin.last n) j.castSucc = 0) :
+    M.det = M (Fin.last n) (Fin.last n) * (M.submatrix Fin.castSucc Fin.castSucc).det := by
+  rw [Matrix.det_succ_row M (Fin.last n), Fin.sum_univ_castSucc]
+  have : ∑ j : Fin n, (-1 : ℝ) ^ ((Fin.last n : ℕ) + (j.castSucc : ℕ)) * M (Fin.last n) j.castSucc *
+      (M.submatrix (Fin.last n).succAbove j.castSucc.succAbove).det = 0 := by
+    apply Finset.sum_eq_zero; intro j _; rw [h j]; ring
+  rw [this, zero_add, Fin.succAbove_last]
+  have : (-1 : ℝ) ^ ((Fin.last n : ℕ) + (Fin.last n : ℕ)) = 1 := by
+    rw [← two_mul, pow_mul]; simp
+  rw [this, one_mul]
+
+theorem succAbove_penult_castSucc {n : Nat} (j : Fin n) :
+    ((Fin.last n).castSucc : Fin (n + 2)).succAbove j.castSucc = j.castSucc.castSucc := by
+  apply Fin.succAbove_of_castSucc_lt
+  simp [Fin.lt_def]
+
+theorem succAbove_penult_last {n : Nat} :
+    ((Fin.last n).castSucc : Fin (n + 2)).succAbove (Fin.last n) = Fin.last (n + 1) := by
+  rw [Fin.succAbove_of_le_castSucc _ _ (le_refl _)]
+  simp
+
+/-- the last two rows vanish outside the trailing 2 × 2 block -/
+theorem det_last_two_rows {n : Nat} (M : Matrix (Fin (n + 2)) (Fin (n + 2)) ℝ)
+    (ha : ∀ j : Fin n, M (Fin.last n).castSucc j.castSucc.castSucc = 0)
+    (hb : ∀ j : Fin n, M (Fin.last (n + 1)) j.castSucc.castSucc = 0) :
+    M.det = (M (Fin.last n).castSucc (Fin.last n).castSucc * M (Fin.last (n + 1)) (Fin.last (n + 1))
+        - M (Fin.last n).castSucc (Fin.last (n + 1)) * M (Fin.last (n + 1)) (Fin.last n).castSucc) *
+      (M.submatrix (fun j : Fin n => j.castSucc.castSucc) (fun j : Fin n => j.castSucc.castSucc)).det := by
+  rw [Matrix.det_succ_row M (Fin.last (n + 1)), Fin.sum_univ_castSucc, Fin.sum_univ_castSucc]
+  have h0 : ∑ j : Fin n, (-1 : ℝ) ^ ((Fin.last (n + 1) : ℕ) + (j.castSucc.castSucc : ℕ)) *
+      M (Fin.last (n + 1)) j.castSucc.castSucc *
+      (M.submatrix (Fin.last (n + 1)).succAbove j.castSucc.castSucc.succAbove).det = 0 := by
+    apply Finset.sum_eq_zero; intro j _; rw [hb j]; ring
+  rw [h0, zero_add, Fin.succAbove_last]
+  -- the minor of (b, b)
+  have h1 : (M.submatrix Fin.castSucc Fin.castSucc).det =
+      M (Fin.last n).castSucc (Fin.last n).castSucc *
+      (M.submatrix (fun j : Fin n => j.castSucc.castSucc) (fun j : Fin n => j.castSucc.castSucc)).det := by
+    rw [det_last_row _ (fun j => by simpa using ha j)]
+    rfl
+  -- the minor of (b, a)
+  have h2 : (M.submatrix Fin.castSucc ((Fin.last n).castSucc : Fin (n + 2)).succAbove).det =
+      M (Fin.last n).castSucc (Fin.last (n + 1)) *
+      (M.submatrix (fun j : Fin n => j.castSucc.castSucc) (fun j : Fin n => j.castSucc.castSucc)).det := by
+    rw [det_last_row _ (fun j => by simpa [succAbove_penult_castSucc] using ha j)]
+    simp only [Matrix.submatrix_apply, succAbove_penult_last, Matrix.submatrix_submatrix]
+    congr 2
+    ext i j
+    simp only [Matrix.submatrix_apply, Function.comp, succAbove_penult_castSucc]
+  rw [h1, h2]
+  have s1 : (-1 : ℝ) ^ ((Fin.last (n + 1) : ℕ) + ((Fin.last n).castSucc : Fin (n + 2)).val) = -1 := by
+    simp only [Fin.val_last, Fin.val_castSucc]
+    rw [show n + 1 + n = 2 * n + 1 by ring, pow_succ, pow_mul]; simp
+  have s2 : (-1 : ℝ) ^ ((Fin.last (n + 1) : ℕ) + (Fin.last (n + 1) : ℕ)) = 1 := by
+    rw [← two_mul, pow_mul]; simp
+  rw [s1, s2]
+  ring
+
+
+/-- contribution of position `i` to the product of the spectrum -/
+noncomputable def factor (d e : Nat → ℝ) (i : Nat) : ℝ :=
+  if 0 < e i then d i * d i + e i * e i else if e i < 0 then 1 else d i
+
+theorem spectrumProd_eq (n : Nat) (d e : Nat → ℝ) :
+    spectrumProd n d e = ∏ i ∈ Finset.range n, factor d e i := by
+  unfold spectrumProd
+  rw [ScalarReal.one_eq]
+  induction n with
+  | zero => simp
+  | succ n ih =>
+    rw [List.range_succ, List.foldl_append, ih, Finset.prod_range_succ]
+    simp only [List.foldl_cons, List.foldl_nil, factor, ScalarReal.gtb_iff, ScalarReal.ltb_iff, ScalarReal.zero_eq]
+    split
+    · rfl
+    · split
+      · rw [mul_one]
+      · rfl
+
+theorem spectrumSum_eq (n : Nat) (d : Nat → ℝ) :
+    spectrumSum n d = ∑ i ∈ Finset.range n, d i := by
+  unfold spectrumSum
+  rw [ScalarReal.zero_eq]
+  exact foldl_add_eq_sum n d
+
+theorem toMatrix_castSucc (n : Nat) (F : FMat ℝ) :
+    (toMatrix (n + 1) F).submatrix Fin.castSucc Fin.castSucc = toMatrix n F := by
+  ext i j; simp [toMatrix]
+
+theorem PairsWF.prefix_real {n : Nat} {d e : Nat → ℝ} (h : PairsWF (n + 1) d e) (he : e n = 0) :
+    PairsWF n d e := by
+  intro i hi
+  obtain ⟨h1, h2⟩ := h i (by omega)
+  refine ⟨fun hp => ?_, h2⟩
+  obtain ⟨a, b, c⟩ := h1 hp
+  refine ⟨?_, b, c⟩
+  by_contra hlt
+  have : i + 1 = n := by omega
+  rw [this, he] at b
+  linarith
+
+theorem PairsWF.prefix_pair {n : Nat} {d e : Nat → ℝ} (h : PairsWF (n + 2) d e) (he : 0 < e n) :
+    PairsWF n d e := by
+  intro i hi
+  obtain ⟨h1, h2⟩ := h i (by omega)
+  refine ⟨fun hp => ?_, h2⟩
+  obtain ⟨a, b, c⟩ := h1 hp
+  refine ⟨?_, b, c⟩
+  by_contra hlt
+  have : i + 1 = n := by omega
+  rw [this] at b
+  linarith
+
+/-- the determinant of the block-diagonal matrix assembled by `getD` is the product of the
+spectrum: `d` for a real eigenvalue, `d² + e²` for a conjugate pair -/
+theorem det_blockEntry (n : Nat) (d e : Nat → ℝ) (hwf : PairsWF n d e) :
+    (toMatrix n (blockEntry d e)).det = ∏ i ∈ Finset.range n, factor d e i := by
+  induction n using Nat.strong_induction_on with
+  | _ n ih =>
+    match n, ih, hwf with
+    | 0, _, _ => simp
+    | m + 1, ih, hwf =>
+      obtain ⟨hp, hm⟩ := hwf m (by omega)
+      rcases lt_trichotomy (e m) 0 with hneg | hzero | hpos
+      · -- the last position closes a conjugate pair
+        obtain ⟨hm0, hem, hdm⟩ := hm hneg
+        obtain ⟨k, rfl⟩ : ∃ k, m = k + 1 := ⟨m - 1, by omega⟩
+        simp only [Nat.add_sub_cancel] at hem hdm
+        have hek : 0 < e k := by rw [hem]; linarith
+        have hnek : ¬ e k < 0 := not_lt.mpr (le_of_lt hek)
+        have hnpos : ¬ 0 < e (k + 1) := not_lt.mpr (le_of_lt hneg)
+        rw [det_last_two_rows]
+        · have hTL : (toMatrix (k + 2) (blockEntry d e)).submatrix (fun j : Fin k => j.castSucc.castSucc)
+              (fun j : Fin k => j.castSucc.castSucc) = toMatrix k (blockEntry d e) := by
+            ext i j; simp [toMatrix]
+          rw [hTL, ih k (by omega) (hwf.prefix_pair hek), Finset.prod_range_succ, Finset.prod_range_succ]
+          have f1 : factor d e k = d k * d k + e k * e k := by simp [factor, hek]
+          have f2 : factor d e (k + 1) = 1 := by simp [factor, hnpos, hneg]
+          rw [f1, f2]
+          simp only [toMatrix, Fin.val_castSucc, Fin.val_last, blockEntry, ScalarReal.gtb_iff, ScalarReal.ltb_iff,
+            ScalarReal.zero_eq]
+          simp only [hek, hneg, if_true, and_self, and_true, Nat.succ_ne_self, if_false]
+          rw [if_neg (by omega), if_neg (fun h => absurd h.1 (by omega)), hem, hdm]
+          ring
+        · intro j
+          have hj := j.isLt
+          simp only [toMatrix, Fin.val_castSucc, Fin.val_last, blockEntry, ScalarReal.gtb_iff, ScalarReal.ltb_iff,
+            ScalarReal.zero_eq]
+          rw [if_neg (by omega), if_neg (fun h => absurd h.1 (by omega)), if_neg (fun h => hnek h.2)]
+        · intro j
+          have hj := j.isLt
+          simp only [toMatrix, Fin.val_castSucc, Fin.val_last, blockEntry, ScalarReal.gtb_iff, ScalarReal.ltb_iff,
+            ScalarReal.zero_eq]
+          rw [if_neg (by omega), if_neg (fun h => absurd h.1 (by omega)), if_neg (fun h => absurd h.1 (by omega))]
+      · -- a real eigenvalue in the last position
+        have hn1 : ¬ 0 < e m := by rw [hzero]; exact lt_irrefl 0
+        have hn2 : ¬ e m < 0 := by rw [hzero]; exact lt_irrefl 0
+        rw [det_last_row, toMatrix_castSucc, ih m (by omega) (hwf.prefix_real hzero), Finset.prod_range_succ]
+        · have f1 : factor d e m = d m := by simp [factor, hn1, hn2]
+          rw [f1]
+          simp only [toMatrix, Fin.val_last, blockEntry, if_true]
+          ring
+        · intro j
+          have hj := j.isLt
+          simp only [toMatrix, Fin.val_castSucc, Fin.val_last, blockEntry, ScalarReal.gtb_iff, ScalarReal.ltb_iff,
+            ScalarReal.zero_eq]
+          rw [if_neg (by omega), if_neg (fun h => absurd h.1 (by omega)), if_neg (fun h => hn2 h.2)]
+      · exact absurd (hp hpos).1 (by omega)
+
+
+theorem eq_conj_of_similar {n : Nat} (A V W D : Matrix (Fin n) (Fin n) ℝ)
+    (hAV : A * V = V * D) (hVW : V * W = 1) : A = V * D * W := by
+  calc A = A * (V * W) := by rw [hVW, mul_one]
+    _ = (A * V) * W := by rw [Matrix.mul_assoc]
+    _ = V * D * W := by rw [hAV]
+
+theorem trace_of_similar {n : Nat} (A V W D : Matrix (Fin n) (Fin n) ℝ)
+    (hAV : A * V = V * D) (hVW : V * W = 1) : A.trace = D.trace := by
+  have hWV : W * V = 1 := mul_eq_one_comm.mp hVW
+  rw [eq_conj_of_similar A V W D hAV hVW, Matrix.trace_mul_cycle, hWV, Matrix.one_mul]
+
+theorem det_of_similar {n : Nat} (A V W D : Matrix (Fin n) (Fin n) ℝ)
+    (hAV : A * V = V * D) (hVW : V * W = 1) : A.det = D.det := by
+  have h1 : V.det * W.det = 1 := by rw [← Matrix.det_mul, hVW, Matrix.det_one]
+  rw [eq_conj_of_similar A V W D hAV hVW, Matrix.det_mul, Matrix.det_mul]
+  calc V.det * D.det * W.det = (V.det * W.det) * D.det := by ring
+    _ = D.det := by rw [h1, one_mul]
+
+theorem trace_blockEntry (n : Nat) (d e : Nat → ℝ) :
+    (toMatrix n (blockEntry d e)).trace = ∑ i ∈ Finset.range n, d i := by
+  rw [← Fin.sum_univ_eq_sum_range d n]
+  simp [Matrix.trace, toMatrix, blockEntry]
 
 end Bpp.EigenGlue
